@@ -2,7 +2,7 @@
 import os, re, subprocess, time, resource
 from concurrent.futures import ThreadPoolExecutor
 
-MEM_LIMIT_KB = int(os.environ.get("VERIF_KANI_MEM_KB", str(14 * 1024 * 1024)))
+MEM_LIMIT_KB = int(os.environ.get("VERIF_KANI_MEM_KB", str(26 * 1024 * 1024)))
 
 
 def _limits():
@@ -12,7 +12,7 @@ def _limits():
     resource.setrlimit(resource.RLIMIT_AS, (lim, lim))
 
 
-CHECK_RE = re.compile(r"^Check (\d+): (\S+)\n\s+- Status: (\w+)\n\s+- Description: \"(.*)\"\n\s+- Location: (.*)$", re.M)
+CHECK_RE = re.compile(r"^Check (\d+): (.+)\n\s+- Status: (\w+)\n\s+- Description: \"(.*)\"\n\s+- Location: (.*)$", re.M)
 
 
 def parse(log):
@@ -50,6 +50,8 @@ def parse(log):
     elif "VERIFICATION:- FAILED" in log:
         if "Status: ERROR" in log and not r["failed"]:
             r["reason"] = "cbmc error (out of memory?)"
+        elif "Solver ran out of memory" in log or "std::bad_alloc" in log:
+            r["reason"] = "solver ran out of memory"
         elif r.get("undetermined") and not [f for f in r["failed"] if "unsupported" not in f["desc"].lower()]:
             r["reason"] = "undetermined checks (unsupported construct reached)"
         elif r["unwind_fail"] and all(("unwinding assertion" in f["desc"] or ".unwind." in f["check"]) for f in r["failed"]):
@@ -115,7 +117,7 @@ def run(ws, crate, harness, logdir, target_dir, timeout, features=None, extra=No
     return r
 
 
-def run_many(ws, crate, harnesses, logdir, target_root, timeout, slots=4, **kw):
+def run_many(ws, crate, harnesses, logdir, target_root, timeout, slots=4, warm=False, **kw):
     """harnesses: list of names (or (name, extra_args)).  Each slot has its own target dir;
     the first harness warms slot 0 and the others copy nothing (cargo rebuilds per slot)."""
     import queue
@@ -123,6 +125,17 @@ def run_many(ws, crate, harnesses, logdir, target_root, timeout, slots=4, **kw):
     for i in range(slots):
         q.put(i)
     out = {}
+    harnesses = list(harnesses)
+    if warm and slots > 1 and len(harnesses) > 1:
+        # build the dependencies once (first harness, slot 0), then clone the target dir
+        h0 = harnesses.pop(0)
+        name0, extra0 = (h0, None) if isinstance(h0, str) else h0
+        r0 = run(ws, crate, name0, logdir, os.path.join(target_root, "t0"), timeout, extra=extra0, **kw)
+        out[r0["harness"]] = r0
+        for i in range(1, slots):
+            dst = os.path.join(target_root, "t%d" % i)
+            if not os.path.exists(dst) and os.path.isdir(os.path.join(target_root, "t0")):
+                subprocess.run(["cp", "-al", os.path.join(target_root, "t0"), dst])
 
     def one(h):
         name, extra = (h, None) if isinstance(h, str) else h
